@@ -622,6 +622,11 @@ func (L *LFacts) computeMayLatch() {
 				}
 				if sc := cc.StaticCallee(); sc != nil {
 					direct[fn] = append(direct[fn], sc)
+					// inside a generic body the callee is an instantiation over the body's own type
+					// parameters, which stands for its origin
+					if o := originOf(sc); o != sc {
+						direct[fn] = append(direct[fn], o)
+					}
 				}
 			}
 			if mc, ok := ins.(*ssa.MakeClosure); ok {
